@@ -40,6 +40,7 @@ type c19World struct {
 	pts     []*object.Point
 	tiles   []*object.TileXYZ
 	qks     []*object.QuadkeyAndVerticalID
+	bqks    []*object.QuadkeyAndVerticalID // bit-form vertical IDs (maxHeight > minHeight)
 	eobj    *object.ExtendedSpatialID
 	h, v    int64
 	radius  float64
@@ -179,6 +180,22 @@ var c19Ops = []c19Op{
 	{"transform.ConvertQuadkeysAndVerticalIDsToExtendedSpatialIDs", func(w *c19World) string {
 		return cs(transform.ConvertQuadkeysAndVerticalIDsToExtendedSpatialIDs(w.qks, clamp64(w.h, 0, 12), clamp64(w.v, 0, 12)))
 	}},
+	{"transform.ConvertQuadkeysAndVerticalIDsToExtendedSpatialIDs(bit)", func(w *c19World) string {
+		return cs(transform.ConvertQuadkeysAndVerticalIDsToExtendedSpatialIDs(w.bqks, clamp64(w.h, 0, w.bqks[0].QuadkeyZoom()+1), 20))
+	}},
+	{"transform.ConvertQuadkeysAndVerticalIDsToSpatialIDs(bit)", func(w *c19World) string {
+		return cs(transform.ConvertQuadkeysAndVerticalIDsToSpatialIDs(w.bqks[:1], clamp64(w.bqks[0].QuadkeyZoom()+1, 0, 35)))
+	}},
+	{"transform.ConvertSpatialIDsToQuadkeysAndVerticalIDs(bit)", func(w *c19World) string {
+		gs, e := transform.ConvertSpatialIDsToQuadkeysAndVerticalIDs(w.sp[:1], clamp64(w.h, 1, 31), 5, 2048, -2048)
+		var raw []string
+		for _, g := range gs {
+			for _, p := range g.InnerIDList() {
+				raw = append(raw, fmt.Sprint(p))
+			}
+		}
+		return cs(raw, e)
+	}},
 	{"transform.ConvertQuadkeysAndVerticalIDsToSpatialIDs", func(w *c19World) string {
 		return cs(transform.ConvertQuadkeysAndVerticalIDsToSpatialIDs(w.qks, clamp64(w.h, 0, 12)))
 	}},
@@ -288,6 +305,7 @@ func c19BuildWorld(c *CaseC19) *c19World {
 		tl, _ := object.NewTileXYZ(b.H, b.X, b.Y, 10, 512+b.F%8)
 		w.tiles = append(w.tiles, tl)
 		w.qks = append(w.qks, object.NewQuadkeyAndVerticalID(b.H, ref.Quadkey(b.H, b.X, b.Y), b.V, b.F, 0, 0))
+		w.bqks = append(w.bqks, object.NewQuadkeyAndVerticalID(b.H, ref.Quadkey(b.H, b.X, b.Y), 8, int64(len(w.bqks)*37%256), 64, -64))
 	}
 	for _, p := range c.Pts {
 		w.pts = append(w.pts, p.obj())
@@ -433,7 +451,7 @@ func checkC19(c *CaseC19, fl *Fails) {
 func init() {
 	register(PropT[CaseC19]{
 		ID:   "C19",
-		Rule: "rapid: a workload = 8..40 calls drawn from a table of 34 closures covering every package (shape, integrate, operated, detector, transform, object, common, spatial) over ONE shared set of arguments (ID slices in both notations with repeated / nested / neighbouring entries, two *Point, *TileXYZ, *QuadkeyAndVerticalID, *ExtendedSpatialID), executed by G in 2..16 goroutines, 3 rounds, released by a start barrier; every goroutine runs an overlapping share of the call list so that different operations meet on the same arguments. Test binary built with -race. Non-trivial: >=2 goroutines and >=2 different operation kinds. Distinct = hash of the workload.",
+		Rule: "rapid: a workload = 8..40 calls drawn from a table of 37 closures covering every package (shape, integrate, operated, detector, transform, object, common, spatial) over ONE shared set of arguments (ID slices in both notations with repeated / nested / neighbouring entries, two *Point, *TileXYZ, *QuadkeyAndVerticalID, *ExtendedSpatialID), executed by G in 2..16 goroutines, 3 rounds, released by a start barrier; every goroutine runs an overlapping share of the call list so that different operations meet on the same arguments. Test binary built with -race. Non-trivial: >=2 goroutines and >=2 different operation kinds. Distinct = hash of the workload.",
 		Assumptions: []string{
 			"oracle: (1) no race-detector report is written during the workload (GORACE log_path is polled after every workload), (2) every concurrent call returns the canonicalised result the same call returned sequentially before, (3) shared arguments are unchanged afterwards",
 			"schedules are sampled by real parallel execution (16 cores), not enumerated: a race that needs a rare interleaving can be missed; unsynchronised writes on a hot path are reported within the first workloads",
